@@ -44,7 +44,7 @@ def current_vthread():
 
 class VThread:
     __slots__ = ("name", "fn", "go", "done", "result", "exc", "blocked", "lines", "budget", "thread", "il",
-                 "crash_at", "where")
+                 "crash_at", "where", "wbudget", "prev_w", "wseen")
 
     def __init__(self, il, name, fn):
         self.il = il
@@ -60,6 +60,9 @@ class VThread:
         self.crash_at = None
         self.where = ""
         self.thread = None
+        self.wbudget = 0
+        self.prev_w = False
+        self.wseen = {}
 
 
 class SimLock:
@@ -103,10 +106,20 @@ class SimLock:
 class Interleaver:
     WAIT = 100.0  # real seconds before a parked controller declares a harness hang
 
-    def __init__(self, ch, trace_root: str, qlo: int, qhi: int, log: list, stats: dict):
+    WQ = (1, 1, 2, 3, 5, 8, 15, 40, 120, 400)  # write-boundary budgets: park one thread at a store, let another run far
+
+    def __init__(self, ch, trace_root: str, qlo: int, qhi: int, log: list, stats: dict, write_lines=None, whi: int = 0,
+                 qlog: bool = False):
         self.ch = ch
         self.root = trace_root
         self.qlo, self.qhi = qlo, qhi
+        # write-directed pre-emption: {filename: lines that store into shared state}; a quantum then also ends at the
+        # `wbudget`-th boundary of such a line (just before it executes, or just after it did)
+        self.wl = write_lines if whi > 0 else None
+        self.whi = whi
+        # log-uniform quanta (1, 2, 4, ... <= qhi): fine-grained and long stretches in the same run
+        self.qlog = qlog
+        self.qexp = max(1, int(qhi).bit_length())
         self.log = log
         self.stats = stats
         self._ctrl = threading.Event()
@@ -129,6 +142,22 @@ class Interleaver:
             where = f"{frame.f_code.co_filename[len(self.root):]}:{frame.f_lineno}"
             raise InjectedCrash(where)
         vt.budget -= 1
+        if self.wl is not None:
+            ws = self.wl.get(frame.f_code.co_filename)
+            is_w = ws is not None and frame.f_lineno in ws
+            if is_w:
+                # a store line inside a hot loop is a boundary at its 1st, 2nd, 4th, 8th ... execution by this task only, so
+                # that once-per-task stores (cache fills, lazy initialisation) are not drowned by per-slice stores
+                key = (frame.f_code, frame.f_lineno)
+                c = vt.wseen.get(key, 0) + 1
+                vt.wseen[key] = c
+                is_w = c & (c - 1) == 0
+            if is_w or vt.prev_w:
+                vt.wbudget -= 1
+                if vt.wbudget <= 0:
+                    vt.budget = 0
+                    self.stats["write_preemptions"] = self.stats.get("write_preemptions", 0) + 1
+            vt.prev_w = is_w
         if vt.budget <= 0:
             if _holds_real_lock():
                 # never park a thread that owns a real (non-simulated) lock another virtual thread may need:
@@ -174,8 +203,13 @@ class Interleaver:
 
     def step(self, vt: VThread):
         """give `vt` the baton for one quantum"""
-        q = self.ch.range(self.qlo, self.qhi, "quantum")
+        if self.qlog:
+            q = 1 << self.ch.int(self.qexp, "quantum-log2")
+        else:
+            q = self.ch.range(self.qlo, self.qhi, "quantum")
         vt.budget = q
+        if self.wl is not None:
+            vt.wbudget = self.WQ[self.ch.int(min(self.whi, len(self.WQ)), "wquantum")]
         self._ctrl.clear()
         vt.go.set()
         if not self._ctrl.wait(self.WAIT):
